@@ -254,6 +254,19 @@ func runC12(c c12Case, r *rep.Report) (key, msg string, stats map[string]int64) 
 						w.SocketByID(sid).Send(types.NewStringBufferString("x"), nil, nil)
 					}
 				}
+				// some sessions are already closing gracefully (buffered data, client not polling)
+				nClosing := 0
+				for i, cl := range cls {
+					if cl.Cfg.Transport == "polling" && (i+c.Buffered)%2 == 0 {
+						cl.Pause()
+						s := w.SocketByID(cl.Sid)
+						s.Send(types.NewStringBufferString("pending"), nil, nil)
+						s.Close(false)
+						nClosing++
+					}
+				}
+				rig.Wait()
+				stats["sessions_closing_at_shutdown"] += int64(nClosing)
 				if c.Mode == "http-shutdown" {
 					go w.Mux.Close(nil)
 				} else {
